@@ -34,12 +34,14 @@ def initial_files() -> T.Tuple[L.Files, L.Files]:
         'arr': L.Spec('arr', 'array', 'x', choices=['x', 'y', 'z']),
         'f': L.Spec('f', 'feature', 'auto'),
         'y': L.Spec('y', 'string', 'ytop'),
+        'yc': L.Spec('yc', 'combo', 'a', choices=['a', 'b', 'c']),
     }
     sub = {
         't': L.Spec('t', 'string', 't0'),
         'k': L.Spec('k', 'combo', 'p', choices=['p', 'q', 'r']),
         'j': L.Spec('j', 'integer', '3', min=0, max=50),
         'y': L.Spec('y', 'string', 'ysub', yielding=True),
+        'yc': L.Spec('yc', 'combo', 'b', choices=['a', 'b', 'c'], yielding=True),
     }
     return top, sub
 
@@ -108,8 +110,6 @@ class Gen:
         ks = []
         for sub in ('', 'sub'):
             for n, sp in src[sub].items():
-                if sub and sp.yielding:
-                    continue     # explicit value on a yielding option: documents are silent -> not generated
                 if m.st.configured:
                     # an option whose declaration was edited but not yet re-read: whether the same command may
                     # already set it by the new declaration differs between configure and reconfigure and is not
@@ -140,13 +140,31 @@ class Gen:
             out[k] = self.value_for(spec, valid=r.random() >= p_invalid)
         return out
 
+    def edit_directed(self, m: L.Model, what: str) -> T.Dict[str, T.Any]:
+        if what == 'remove-parent-y':
+            del m.files['']['y']
+            return {'edit': 'remove', 'sub': '', 'name': 'y'}
+        if what == 'shrink-sub-yc':
+            m.files['sub']['yc'].choices = ['a', 'b']
+            return {'edit': 'shrink', 'sub': 'sub', 'name': 'yc', 'removed': 'c'}
+        if what == 'extend-top-yc':
+            m.files['']['yc'].choices = ['a', 'b', 'c', 'd']
+            return {'edit': 'extend', 'sub': '', 'name': 'yc', 'added': 'd'}
+        raise AssertionError(what)
+
     def edit(self, m: L.Model) -> T.Dict[str, T.Any]:
         r = self.rng
         sub = r.choice(['', 'sub'])
         f = m.files[sub]
         kinds = ['add', 'change-default', 'shrink', 'extend', 'range']
-        if len(f) > 2:
+        if len(f) > 1:
             kinds.append('remove')
+        if f and r.random() < 0.12:
+            # hostile: the option file ends up declaring nothing at all
+            names = [n for n in f if n not in ('y', 'yc')]
+            for n in names:
+                del f[n]
+            return {'edit': 'remove-all', 'sub': sub, 'name': ','.join(names) or '-'}
         for _ in range(10):
             kind = r.choice(kinds)
             if kind == 'add':
@@ -156,7 +174,7 @@ class Gen:
                         'integer': L.Spec(name, 'integer', '7', min=0, max=20), 'combo': L.Spec(name, 'combo', 'm', choices=['l', 'm', 'n'])}[k]
                 f[name] = spec
                 return {'edit': 'add', 'sub': sub, 'name': name, 'kind': k}
-            cands = [n for n in f if not (sub == 'sub' and n == 'y') and not (sub == '' and n == 'y')]
+            cands = [n for n in f if n not in ('y', 'yc')]
             if not cands:
                 continue
             name = r.choice(cands)
@@ -293,10 +311,13 @@ def run_history(job: T.Tuple[int, int, str, T.Optional[T.List[dict]]]) -> dict:
         res['kinds'][kind] = res['kinds'].get(kind, 0) + 1
 
     last_edit: T.Dict[str, str] = {}
-    for stepno in range(nsteps):
+    redeclared_parents: T.Set[str] = set()   # top-level options whose constraints changed since the store was created
+    script = list(replay_steps or [])
+    for stepno in range(nsteps if not script else len(script)):
         r = rng.random()
         st = m.st
         step: T.Dict[str, T.Any]
+        forced = script[stepno] if script else None
         # ---- choose a step -------------------------------------------------------------
         if not m.tree_exists or (not st.configured and not st.record and not m.tree_exists):
             kind = 'setup'
@@ -305,6 +326,8 @@ def run_history(job: T.Tuple[int, int, str, T.Optional[T.List[dict]]]) -> dict:
             kind = 'wipe' if st.record or os.path.isfile(os.path.join(b, 'meson-private', 'cmd_line.txt')) else 'setup'
             if kind == 'wipe' and r < 0.5:
                 kind = 'restore-and-wipe'
+        elif forced is not None:
+            kind = forced['kind']
         elif r < 0.22:
             kind = 'edit'
         elif r < 0.50:
@@ -319,14 +342,31 @@ def run_history(job: T.Tuple[int, int, str, T.Optional[T.List[dict]]]) -> dict:
         expect_ok = True
         argv: T.List[str] = []
         if kind == 'edit':
-            e = gen.edit(m)
+            e = gen.edit_directed(m, forced['what']) if forced is not None else gen.edit(m)
             write_files()
-            last_edit[L.key(e['sub'], e['name'])] = e['edit']
+            for nm in e['name'].split(','):
+                last_edit[L.key(e['sub'], nm)] = e['edit']
+            if e['sub'] == '' and e['edit'] in ('shrink', 'extend', 'range'):
+                redeclared_parents.add(e['name'])
             step = {'step': 'edit', **e}
             res['steps'].append(step)
             note('edit:' + e['edit'])
             continue
-        if kind == 'setup':
+        if forced is not None and kind != 'edit':
+            fa, inject_f = dict(forced.get('assign', {})), False
+        if kind == 'setup' and forced is not None:
+            expect_ok = m.setup(fa, False)
+            argv = ['setup', b, src] + flags(fa)
+            step = {'step': 'setup', 'assign': fa, 'inject_failure': False}
+        elif kind == 'configure' and forced is not None:
+            expect_ok = m.configure(fa, [])
+            argv = ['configure', b] + flags(fa)
+            step = {'step': 'configure', 'assign': fa, 'unset': []}
+        elif kind == 'reconfigure' and forced is not None:
+            expect_ok = m.reconfigure(fa, False)
+            argv = ['setup', '--reconfigure', b, src] + flags(fa)
+            step = {'step': 'reconfigure', 'assign': fa, 'inject_failure': False}
+        elif kind == 'setup':
             assign = gen.assignment(m, rng.randint(0, 4), 0.12, 0.05)
             inject = rng.random() < 0.1
             expect_ok = m.setup(assign, inject)
@@ -390,7 +430,12 @@ def run_history(job: T.Tuple[int, int, str, T.Optional[T.List[dict]]]) -> dict:
             res['timeout'] = True
             break
         if rr.traceback or rr.rc not in (0, 1):
-            problem(f'{step["step"]}/internal-error', tail=(rr.out + rr.err)[-800:])
+            tail = (rr.out + rr.err)[-800:]
+            pending_yield_edit = any(k in last_edit for k in ('sub:y', 'sub:yc'))
+            if pending_yield_edit and "'NoneType' object has no attribute 'value'" in tail:
+                problem('lifecycle/yielding/own-declaration-changed-crashes', tail=tail)
+            else:
+                problem(f'{step["step"]}/internal-error', tail=tail)
             break
         if (rr.rc == 0) != expect_ok:
             problem(f'{step["step"]}/' + ('unexpected-failure' if expect_ok else 'unexpected-success'),
@@ -423,6 +468,16 @@ def run_history(job: T.Tuple[int, int, str, T.Optional[T.List[dict]]]) -> dict:
                     break
                 g = L.norm(got.get(k))
                 res['checked_values'] += 1
+                if g != e and key_class(m, k) == 'sub-yielding' and k not in m.st.user \
+                        and k.split(':')[1] not in m.st.applied['']:
+                    problem('lifecycle/yielding/parent-removed-still-yields-stale-value', key=k, got=got.get(k), expected=e)
+                    bad = True
+                    break
+                if g != e and key_class(m, k) == 'sub-yielding' and k not in m.st.user \
+                        and k.split(':')[1] in redeclared_parents:
+                    problem('lifecycle/yielding/parent-redeclared-child-follows-stale-object', key=k, got=got.get(k), expected=e)
+                    bad = True
+                    break
                 if g != e:
                     problem(f'{step["step"]}{"" if expect_ok else "-failed"}/value-mismatch/{key_class(m, k)}'
                             + (f'/after-{last_edit[k]}' if k in last_edit else ''),
@@ -445,6 +500,8 @@ def run_history(job: T.Tuple[int, int, str, T.Optional[T.List[dict]]]) -> dict:
             if rr.rc == 0:
                 for k in list(last_edit):
                     last_edit.pop(k)
+                if step['step'] in ('setup', 'wipe'):
+                    redeclared_parents.clear()
         else:
             # unconfigured after a failed first setup or a failed wipe
             if step['step'] == 'wipe' and m.st.record:
@@ -479,6 +536,19 @@ def main() -> int:
         return 0
     nh, ns = (96, 10) if chk.tier == 'quick' else (1200, 16)
     jobs = [(chk.seed * 100003 + i, ns, root, None) for i in range(nh)]
+    directed = [
+        # parent of a yielding option disappears: the subproject option must fall back to its own value
+        [{'kind': 'setup', 'assign': {'y': 'pv'}}, {'kind': 'edit', 'what': 'remove-parent-y'}, {'kind': 'reconfigure'}],
+        # the declaration of a yielding option itself changes
+        [{'kind': 'setup', 'assign': {'yc': 'c'}}, {'kind': 'edit', 'what': 'shrink-sub-yc'}, {'kind': 'reconfigure'}],
+        # the parent's declaration changes: the subproject must follow the parent's current value
+        [{'kind': 'setup', 'assign': {'yc': 'b'}}, {'kind': 'edit', 'what': 'extend-top-yc'}, {'kind': 'reconfigure'},
+         {'kind': 'configure', 'assign': {'yc': 'd'}}, {'kind': 'reconfigure'}],
+        # explicit value on a yielding option equal to its own default (documented since 1.8.0), then the parent moves
+        [{'kind': 'setup', 'assign': {}}, {'kind': 'configure', 'assign': {'sub:y': 'ysub'}}, {'kind': 'configure', 'assign': {'y': 'moved'}},
+         {'kind': 'reconfigure'}],
+    ]
+    jobs += [(900000 + i, len(sc), root, sc) for i, sc in enumerate(directed)]
     results = common.pmap(run_history, jobs, chk.jobs, timeout=3000)
     for res in results:
         sig = [(s['step'], s.get('edit'), s.get('expect_ok')) for s in res['steps']]
